@@ -279,13 +279,31 @@ fn subscribe_replay() {
                 }
             }));
         }
+        // variant bit 4: the observers are NEIGHBOURS whose session comes up (register_peer: per shard, under the shard's lock,
+        // the initial dump is taken and the event channel registered) instead of monitoring subscribers
+        let as_peers = variant & 4 != 0;
+        let (peer_tx, peer_rx) = std::sync::mpsc::channel::<(String, HashMap<&'static str, u32>, mpsc::UnboundedReceiver<ToPeerEvent>)>();
         for u in ["u1", "u2"] {
             let tm2 = tm.clone();
             let tx = sub_tx.clone();
+            let ptx = peer_tx.clone();
             let uname = u.to_string();
             handles.push(spawn_managed(tids[u], move || {
-                let s = tm2.subscribe(true);
-                let _ = tx.send((uname, s));
+                if as_peers {
+                    let addr = IpAddr::V4(Ipv4Addr::new(192, 0, 2, if uname == "u1" { 101 } else { 102 }));
+                    let mut dump: HashMap<&'static str, u32> = HashMap::new();
+                    let rx = tm2.register_peer(addr, FnvHashSet::default(), |t| {
+                        for c in t.collect_loc_rib_paths(&Family::IPV4) {
+                            if let Some(b) = c.current_paths.first() {
+                                dump.insert(sub_key_of(&c.net), sub_val(Some(&b.attr)));
+                            }
+                        }
+                    });
+                    let _ = ptx.send((uname, dump, rx));
+                } else {
+                    let s = tm2.subscribe(true);
+                    let _ = tx.send((uname, s));
+                }
             }));
         }
         let mut ok = true;
@@ -391,7 +409,38 @@ fn subscribe_replay() {
                 n
             ));
         }
-        writeln!(out, "{{\"final\":true,\"completed\":{},\"subs\":{{{}}},\"rib\":{}}}", ok, subs_json.join(","), sub_rib_json(&tm)).unwrap();
+        // neighbours: the initial dump folded with what the channel delivered afterwards, against what a session coming up NOW
+        // would be given
+        let mut peers_json = Vec::new();
+        while let Ok((u, dump, mut rx)) = peer_rx.try_recv() {
+            let mut view = dump;
+            while let Ok(ev) = rx.try_recv() {
+                if let ToPeerEvent::NlriChange(c) = ev {
+                    if c.best_changed {
+                        match c.current_paths.first() {
+                            Some(b) => {
+                                view.insert(sub_key_of(&c.net), sub_val(Some(&b.attr)));
+                            }
+                            None => {
+                                view.remove(sub_key_of(&c.net));
+                            }
+                        }
+                    }
+                }
+            }
+            let mut fresh: HashMap<&str, u32> = HashMap::new();
+            for shard in &tm.shards {
+                let t = shard.lock().unwrap();
+                for c in t.rtable.collect_loc_rib_paths(&Family::IPV4) {
+                    if let Some(b) = c.current_paths.first() {
+                        fresh.insert(sub_key_of(&c.net), sub_val(Some(&b.attr)));
+                    }
+                }
+            }
+            let f = |m: &HashMap<&str, u32>| format!("{{\"k1\":{},\"k2\":{},\"k3\":{}}}", m.get("k1").copied().unwrap_or(0), m.get("k2").copied().unwrap_or(0), m.get("k3").copied().unwrap_or(0));
+            peers_json.push(format!("\"{}\":{{\"view\":{},\"fresh\":{}}}", u, f(&view), f(&fresh)));
+        }
+        writeln!(out, "{{\"final\":true,\"completed\":{},\"subs\":{{{}}},\"peers\":{{{}}},\"rib\":{}}}", ok, subs_json.join(","), peers_json.join(","), sub_rib_json(&tm)).unwrap();
     }
     out.flush().unwrap();
 }
